@@ -636,8 +636,8 @@ def main():
              'steps': 0, 'ticks': 0, 'hold_ups': 0, 'tick_lengths': {}, 'model_rejects': 0}
     requests = []
 
-    n_clock = 260 if not chk.thorough else 4000
-    n_script = 120 if not chk.thorough else 1500
+    n_clock = 260 if not chk.thorough else 2500
+    n_script = 120 if not chk.thorough else 1000
     cases = []
     for i, f in enumerate(FIXED_CLOCK):
         c = dict(f, mode='clock', id='fixed-clock-%d' % i)
@@ -666,8 +666,12 @@ def main():
             policies.append(('random', rng.randrange(1 << 30), rng.choice([0.3, 0.6, 0.85]),
                              rng.choice([0.0, 0.02, 0.1])))
         n_ticks = int((horizon[-1][1] - frac(base_case['t0'])) / frac(base_case['tick'])) if horizon else 0
+        # a held-up thread can miss its minute: allow for one full period of each pattern
+        slack = sum((3600 if re.search(r':\d\*', o[1]) else 600) / base_case['tick']
+                    for o in spec_ops if o[0] == 'until')
         for pol in policies:
-            case = dict(base_case, policy=pol, max_steps=4000 + 60 * n_ticks,
+            case = dict(base_case, policy=pol,
+                        max_steps=4000 + 60 * n_ticks + (0 if pol[0] == 'solo' else int(40 * slack)),
                         expect=[o for o in spec_ops if o[0] != 'work'])
             if case['mode'] == 'script':
                 case['net'] = net
@@ -803,8 +807,51 @@ def main():
     chk.finish()
 
 
+def replay_main(path):
+    """./check C10 --replay FILE: run the recorded case again on the real code"""
+    import json
+    with open(path) as f:
+        rec = json.load(f)
+    r = rec['replay']
+    if 'mode' not in r:
+        print('replay of {}: not a scheduled run ({}); see the file'.format(path, rec.get('signature')))
+        sys.exit(0)
+    net, ls, trace = simnet.install(POP, settings_overrides={'sleep_time': 0.25})
+    from bardolph.lib import clock as clock_mod, settings as settings_mod, injection, i_lib
+    from bardolph.lib.time_pattern import TimePattern as TP
+    from bardolph.controller.script_job import ScriptJob
+    injection.bind(clock_mod.Clock).to(i_lib.Clock)
+    case = dict(r)
+    case.pop('schedule', None)
+    case.pop('expect', None)
+    case['policy'] = tuple(case['policy'])
+    if case['mode'] == 'clock':
+        case['ops'] = [tuple(o) for o in case['ops']]
+        spec_ops = case['ops']
+    else:
+        case['stmts'] = [tuple(x) for x in case['stmts']]
+        case['net'] = net
+        spec_ops = script_ops(case['stmts'], case['costs'])
+    case['expect'] = [o for o in spec_ops if o[0] != 'work']
+    obs = run_case(case, (clock_mod, settings_mod, TP, ScriptJob))
+
+    class _Chk:
+        pass
+    bad = check_case(_Chk(), case, obs, spec_ops)
+    print('replay of {}: outcome={} decisions={}'.format(path, obs.outcome, obs.steps))
+    for sig, text in bad:
+        print('  {}: {}'.format(sig, text))
+    if any(sig == rec.get('signature') for sig, _ in bad):
+        print('VIOLATION property=C10 replay={} (reproduced)'.format(path))
+        sys.exit(1)
+    print('not reproduced')
+    sys.exit(0)
+
+
 def guarded():
     try:
+        if '--replay' in sys.argv:
+            replay_main(sys.argv[sys.argv.index('--replay') + 1])
         main()
     except (InfraError, SystemExit):
         raise
